@@ -116,6 +116,13 @@ Example C19_nonvacuous_languages :
   run [102; 114] [96; 96; 8230] = Some [171; 46; 46; 46] /\ run [120; 120] [97] = None.
 Proof. vm_compute. repeat split; reflexivity. Qed.
 
+(* In the present tables no listed alternative of a start character is a prefix of another one, so
+   the order in which Flatten::Apply tries them cannot be observed by any input: the listed order
+   that the model and C19_flatten_spec fix is tied to the code by the translator only.  If a rule
+   is added that overlaps another, this Example fails and the generators must cover the overlap. *)
+Example C19_tables_prefix_free : tables_prefix_free = true.
+Proof. vm_compute. reflexivity. Qed.
+
 (* preprocess/text.sh runs process_unicode twice: first --flatten --normalize for the language,
    later (when lowercasing) --lower only; both with the language argument *)
 Example C19_text_sh_stages :
